@@ -77,7 +77,9 @@ def _cases(tier, seed):
     K = 3 if tier == "quick" else 12
     cases = []
     for f in corpus:
-        vs = [[[kind, rng.randrange(K)]] for kind in transforms.KINDS]
+        vs = [[[kind, rng.randrange(K)]] for kind in transforms.KINDS + transforms.EXTRA_KINDS]
+        if os.environ.get("VERIF_ALLK"):  # development sweep: the whole variant universe
+            vs = [[[kind, k]] for kind in transforms.KINDS + transforms.EXTRA_KINDS for k in range(K)]
         if tier != "quick":
             for _ in range(6):
                 vs.append([[rng.choice(transforms.KINDS), rng.randrange(K)] for _ in range(rng.choice([2, 3]))])
@@ -90,7 +92,7 @@ def _cases(tier, seed):
         ng = 150 if tier == "quick" else 1500
         G = 400 if tier == "quick" else 6000
         for g in harness.sample(rng, range(G), ng):
-            vs = [[[kind, rng.randrange(K)]] for kind in transforms.KINDS]
+            vs = [[[kind, rng.randrange(K)]] for kind in transforms.KINDS + transforms.EXTRA_KINDS]
             cases.append({"gen": g, "variants": vs})
     except ImportError:
         pass
@@ -159,7 +161,7 @@ def main(tier):
             "rule": "one evaluation per (input, transform chain); non-trivial = the variant text differs from the input, VSG accepted both, the value sequences agree (transform sanity) and every code token's role was compared; distinct by (input, chain)",
             "samples": samples,
             "outcomes": {k: v for k, v in stats.items()},
-            "transform_kinds": list(transforms.KINDS),
+            "transform_kinds": list(transforms.KINDS + transforms.EXTRA_KINDS),
             "known_findings_hit": sorted(V.known_hit),
             "inconclusive": V.inconclusive[:10],
         },
